@@ -87,6 +87,7 @@ func checkC09(c *Ctx) {
 	r.Rule("R09f", "header literals carry all seven fields of the same header", 7)
 
 	c09HeaderScenarios(c)
+	c17RouteOwnHeaders(c, "R09i")
 
 	ep, err := c.ServerRuntime()
 	if err != nil {
